@@ -190,6 +190,30 @@ def mh_programs(rng, n):
     return out
 
 
+def nw_programs(rng, n):
+    """a negation whose arguments are ALL wildcards, `ok(x) <-- a(x), !err(_, _)`: by the documented expansion `agg () = not() in err(_, _)` it holds iff `err` is
+    EMPTY; the look-up goes through the relation's empty-key index (in ascent_par! the `CRelNoIndex`, whose `index_get` answers Some(empty iterator) for an empty
+    relation).  `err` is an input relation (i % 2 == 0) or derived in an earlier stratum; compiled as ascent! AND as ascent_par!"""
+    out = []
+    for i in range(n):
+        p = {"rels": [{"arity": 1}, {"arity": 2}, {"arity": 1}, {"arity": 2}, {"arity": 1}], "macros": [], "rules": []}
+        neg = ("neg", 1, [("_",), ("_",)]) if i % 2 == 0 else ("neg", 3, [("_",), ("_",)])
+        body = [("cl", 0, [("v", 0)], []), neg]
+        if i % 3 == 2: body = [neg, ("cl", 0, [("v", 0)], [])]
+        p["rules"].append({"heads": [(3, [("var", 0), ("var", 1)])], "body": [("cl", 1, [("v", 0), ("v", 1)], [("if", ("lt", ("var", 0), ("var", 1)))])]})
+        p["rules"].append({"heads": [(2, [("var", 0)])], "body": body})
+        p["rules"].append({"heads": [(4, [("var", 0)])], "body": [("cl", 2, [("v", 0)], []), ("neg", 3, [("e", ("var", 0)), ("_",)])]})
+        out.append(p)
+    return out
+
+
+def nw_input(rng, j):
+    a = [(x,) for x in rng.shuffle(list(range(rng.range(1, 5))))]
+    err = [] if j % 2 == 0 else [(rng.below(4), rng.below(4)) for _ in range(rng.range(1, 3))]
+    if j % 4 == 3: err = [(x, x - rng.below(2)) for x, _ in err]          # rows present, none passes `x < y`: r3 stays empty while r1 is not
+    return {0: a, 1: list(dict.fromkeys(err)), 2: [], 3: [], 4: []}
+
+
 def mh_input(rng):
     n = rng.range(3, 6)
     edges = [(i, (i + 1) % n) for i in range(n)]                                       # a cycle through the start node: the last edge leads back to a reached node
@@ -211,13 +235,15 @@ def build(rng, tier):
     sel, have = sgen.select(rng.fork("c07"), sgen.gen_c07_program, sgen.C07_TAGS, 3 if quick else 12, 14 if quick else 70)
     units, cases = [], []
     build.coverage = {"tags": have, "general_programs": len(sel)}
-    def add(pid, p, q, kind, inputs, nm=None, cls=None, bug=None):
+    def add(pid, p, q, kind, inputs, nm=None, cls=None, bug=None, par=False):
         us = surfcheck.Unit(f"{pid}s", S.rs_module(f"{pid}s", p, nm), p, q, kind, {"class": cls})
         ux = surfcheck.Unit(f"{pid}x", S.rs_module(f"{pid}x", q, nm), None, q, kind + "-expanded")
-        units.extend([us, ux])
+        us_all = [us, ux]
+        if par: us_all.append(surfcheck.Unit(f"{pid}p", S.rs_module(f"{pid}p", p, nm, macro="ascent_par"), p, q, kind + "-par", {"class": cls}))
+        units.extend(us_all)
         for j, inp in enumerate(inputs):
             exp = surfcheck.spec_sets(q, inp)
-            for u in (us, ux):
+            for u in us_all:
                 inst = f"{u.pid}_{j}"
                 meta = {"inp": inp, "kind": u.kind, "expected": exp}
                 if u is us and cls:
@@ -245,6 +271,10 @@ def build(rng, tier):
         q = S.expand_spec(p)
         inputs = [mh_input(rng.fork(f"mh_{i}i{j}")) for j in range(5 if quick else 14)]
         add(f"m{i}", p, q, "multi-head-side-stream", inputs)
+    for i, p in enumerate(nw_programs(rng.fork("nw"), 3 if quick else 9)):
+        q = S.expand_spec(p)
+        inputs = [nw_input(rng.fork(f"nw_{i}i{j}"), j) for j in range(4 if quick else 12)]
+        add(f"w{i}", p, q, "neg-all-wildcards-stream", inputs, par=True)
     for i, (p, names, shape) in enumerate(f10_programs(rng.fork("f10"), 3 if quick else 9)):
         q = S.expand_spec(p)
         nm = eng.Names(var=lambda n, names=names: names.get(n, f"v{n}"))
